@@ -5,7 +5,7 @@
 (*          most M bytes, each with a one-byte sequence id; mysql/conn.go.                 *)
 (*  Part B  length-encoded integers and strings, fixed-size and NUL-terminated reads over  *)
 (*          byte sequences (property C12); mysql/encoding.go.                              *)
-(*  Part C  the binary-protocol result row (property C13) is in WireRow.tla (EXTENDS Wire).*)
+(*  Part C  the binary-protocol result row (property C13): Wire_rows.tla (EXTENDS Wire).  *)
 (*                                                                                        *)
 (* TLC integers are 32 bit.  64-bit protocol integers are therefore 8-byte little-endian   *)
 (* sequences ("b8"), never TLC integers.  Buffer offsets follow the Go code: 0-based.      *)
@@ -56,9 +56,10 @@ EmptyTerminator(L, s, M) == LET fs == Split(L, s, M) IN
                               /\ (L = 0 => Len(fs) = 1 /\ fs[1].len = 0)
 RoundTripFrames(L, s, M) == LET r == Reassemble(Split(L, s, M), s, M) IN
                               r.ok /\ r.len = L /\ r.at = NFrames(L, M) /\ r.next = (s + NFrames(L, M)) % 256
-WrongSeqRejected(L, s, M) == LET fs == Split(L, s, M) IN
-                               \A i \in 1..Len(fs) : \A d \in 1..255 :
+WrongSeqRejectedFor(L, s, M, D) == LET fs == Split(L, s, M) IN
+                               \A i \in 1..Len(fs) : \A d \in D :
                                   LET r == Reassemble(BadSeq(fs, i, d), s, M) IN ~r.ok /\ r.why = "seq" /\ r.at = i
+WrongSeqRejected(L, s, M) == WrongSeqRejectedFor(L, s, M, 1..255)
 
 FramingProps(L, s, M) == /\ FramesBounded(L, s, M) /\ FrameCount(L, s, M) /\ AllButLastFull(L, s, M)
                          /\ SeqIncrements(L, s, M) /\ Contiguous(L, s, M) /\ EmptyTerminator(L, s, M)
